@@ -2,6 +2,7 @@ package nodesim
 
 import (
 	"fmt"
+	"strings"
 
 	"github.com/santhosh-tekuri/raft"
 )
@@ -15,9 +16,9 @@ type Bad struct {
 }
 
 type Monitor struct {
-	granted  map[uint64]uint64 // term -> candidate granted by this node (across restarts)
-	maxTerm  uint64            // highest term reported in a reply or digest
-	ackVote  [2]uint64         // last acknowledged (term, vote)
+	granted map[uint64]uint64 // term -> candidate granted by this node (across restarts)
+	maxTerm uint64            // highest term reported in a reply or digest
+	ackVote [2]uint64         // last acknowledged (term, vote)
 }
 
 func NewMonitor() *Monitor { return &Monitor{granted: map[uint64]uint64{}} }
@@ -59,19 +60,35 @@ func (m *Monitor) Check(w *World, pre raft.VNode, op Op, post raft.VNode) *Bad {
 		return &Bad{"C05", "in-memory (term,vote) differs from the durable value"}
 	}
 	m.ackVote = [2]uint64{post.DurTerm, post.DurVote}
-	if bad := m.checkObs(w, pre, op, post); bad != nil {
-		return bad
+	// C01: a vote reply counts only in the election it was requested for
+	if op.Kind == "voteResult" && op.Elect != 0 && op.Elect != pre.Term && pre.Role == "candidate" && !op.Err {
+		if post.VotesNeeded != pre.VotesNeeded || (post.Role == "leader" && post.Term == pre.Term) {
+			return &Bad{"C01", fmt.Sprintf("a vote reply of the election of term %d (from node %d) was counted in the election of term %d", op.Elect, op.Src, pre.Term)}
+		}
 	}
-	if bad := m.checkCrash(w, pre, op, post); bad != nil {
-		return bad
+	// C15: shutdown completes every pending task
+	if op.Kind == "shutdown" && w.Node != nil && w.Node.Panic == "" {
+		if ids := w.Node.PendingTasks(); len(ids) > 0 {
+			return &Bad{"C15", fmt.Sprintf("the node shut down but %d submitted task(s) never completed (first: task %d)", len(ids), ids[0])}
+		}
 	}
-	if bad := m.checkSnapshotLabel(w, pre, op, post); bad != nil {
-		return bad
+	// the remaining groups are independent: report every property that fails on this step
+	var all *Bad
+	for _, f := range []func(*World, raft.VNode, Op, raft.VNode) *Bad{m.checkObs, m.checkCrash, m.checkSnapshotLabel, m.checkInfo} {
+		if bad := f(w, pre, op, post); bad != nil {
+			if all == nil {
+				all = bad
+				continue
+			}
+			for _, p := range strings.Split(bad.Prop, "/") {
+				if !strings.Contains("/"+all.Prop+"/", "/"+p+"/") {
+					all.Prop += "/" + p
+				}
+			}
+			all.Note += "; " + bad.Note
+		}
 	}
-	if bad := m.checkInfo(w, pre, op, post); bad != nil {
-		return bad
-	}
-	return nil
+	return all
 }
 
 // checkInfo: C19 on the state a status report would show after this step.
@@ -89,15 +106,18 @@ func (m *Monitor) checkInfo(w *World, pre raft.VNode, op Op, post raft.VNode) *B
 		return &Bad{"C19", fmt.Sprintf("ordering lastApplied %d <= committed %d <= lastLogIndex %d violated", post.Fsm.Index, post.CommitIndex, post.LastLogIndex)}
 	}
 	if !(post.Log.Prev <= post.SnapIndex && post.SnapIndex <= post.LastLogIndex) {
-		return &Bad{"C19", fmt.Sprintf("ordering firstLogIndex-1 %d <= snapshotIndex %d <= lastLogIndex %d violated", post.Log.Prev, post.SnapIndex, post.LastLogIndex)}
+		// also C09: a log compacted beyond the newest snapshot can neither restart nor serve a lagging follower
+		return &Bad{"C19/C09", fmt.Sprintf("ordering firstLogIndex-1 %d <= snapshotIndex %d <= lastLogIndex %d violated", post.Log.Prev, post.SnapIndex, post.LastLogIndex)}
 	}
 	if post.Configs.Committed.Index > post.Configs.Latest.Index {
 		return &Bad{"C19", "committed configuration index above latest configuration index"}
 	}
-	if want, ok := newestConfigAtOrBelow(&post, post.LastLogIndex); ok {
-		if want.Index != post.Configs.Latest.Index || fmt.Sprint(want.Nodes) != fmt.Sprint(post.Configs.Latest.Nodes) {
-			return &Bad{"C19", fmt.Sprintf("latest configuration (index %d) is not the newest configuration entry in log/snapshot (index %d)", post.Configs.Latest.Index, want.Index)}
-		}
+	// the configuration in force is the newest configuration entry the node holds (log, else snapshot label,
+	// else none): a configuration whose entry was overwritten must be forgotten (C19; it is also what C08's
+	// "every configuration adopted" refers to)
+	want, _ := newestConfigAtOrBelow(&post, post.LastLogIndex)
+	if want.Index != post.Configs.Latest.Index || (want.Index > 0 && fmt.Sprint(want.Nodes) != fmt.Sprint(post.Configs.Latest.Nodes)) {
+		return &Bad{"C19/C08", fmt.Sprintf("latest configuration (index %d) is not the newest configuration entry in log/snapshot (index %d)", post.Configs.Latest.Index, want.Index)}
 	}
 	return nil
 }
@@ -119,7 +139,26 @@ func (m *Monitor) checkObs(w *World, pre raft.VNode, op Op, post raft.VNode) *Ba
 		if o.Role != "leader" {
 			continue
 		}
+		w.St.Hist["obs:"+ob.Point]++
 		switch ob.Point {
+		case "timeoutNow":
+			// C16: the designated successor is another voter of the latest configuration that holds
+			// every entry the leader accepted
+			isVoter := false
+			for _, v := range voters(o.Latest) {
+				if v == o.Arg {
+					isVoter = true
+				}
+			}
+			if nv := len(o.Latest.Nodes) - len(voters(o.Latest)); nv > 0 {
+				w.St.Hist["obs:timeoutNow-with-nonvoters-present"]++
+			}
+			if !isVoter || o.Arg == w.Self {
+				return &Bad{"C16", fmt.Sprintf("leader designates node %d as its successor, which is not another voter of the latest configuration", o.Arg)}
+			}
+			if o.Match[o.Arg] != o.LastLogIndex {
+				return &Bad{"C16", fmt.Sprintf("leader designates node %d as its successor at match index %d, its own log ends at %d", o.Arg, o.Match[o.Arg], o.LastLogIndex)}
+			}
 		case "commitLog":
 			// C06: the leader advances its commit index to Arg: a majority of the voters of the
 			// configuration in force (Latest) must hold it durably; self only if voter
@@ -138,7 +177,18 @@ func (m *Monitor) checkObs(w *World, pre raft.VNode, op Op, post raft.VNode) *Ba
 				}
 			}
 			if 2*cnt <= len(vs) {
-				return &Bad{"C06", fmt.Sprintf("leader commits index %d acknowledged by %d of %d voters of the latest configuration", o.Arg, cnt, len(vs))}
+				prop, who := "C06", ""
+				selfVoter := false
+				for _, v := range vs {
+					if v == w.Self {
+						selfVoter = true
+					}
+				}
+				if !selfVoter {
+					// only acknowledgements of non-voters (the leader's own included) can have carried this commit
+					prop, who = "C06/C11", " (the leader is not a voter: a non-voter's acknowledgement counted)"
+				}
+				return &Bad{prop, fmt.Sprintf("leader commits index %d acknowledged by %d of %d voters of the latest configuration%s", o.Arg, cnt, len(vs), who)}
 			}
 		case "appendEntry":
 			if o.Entry == nil || o.Entry.Typ != 6 || o.Entry.Cfg == nil {
